@@ -22,15 +22,33 @@ type uField struct {
 	Bang     bool // print required as '!' / optional as '?' instead of an attribute
 	Foreign  *[2]string // (package, entity) of a foreign key
 	Optional bool
-	Obj      string // object:<Name> reference to a schema of the package ("" = not a reference)
+	Obj      string // <RefKind>:<Name> reference to a schema of the package ("" = not a reference)
+	RefKind  string // "object" (default), "oneof", "enum"
 	// SayFalse prints the boolean attributes that are off explicitly (`primary = false`,
 	// `required = false`, `optional = false`): same declaration, different text
 	SayFalse bool
+	// Ext: a message type of another (always imported) package, given by its full name
+	// (timestamp / date / decimal / any); J5Type is the j5s type word, J5Kind the field ext kind
+	Ext string
+	// Container: "" | "array" | "map": the rest of the struct describes the item / value type
+	Container string
 }
 
 type eSchema struct {
-	Name   string
-	Fields []uField
+	Kind    int // 0 object, 1 oneof, 2 enum
+	Name    string
+	Fields  []uField // object fields / oneof options
+	Options []string // enum options
+}
+
+func (sc eSchema) coq() string {
+	switch sc.Kind {
+	case 1:
+		return fmt.Sprintf("(SOneof %s %s)", vh.BytesTerm(sc.Name), fieldsCoq(sc.Fields))
+	case 2:
+		return fmt.Sprintf("(SEnum %s %s)", vh.BytesTerm(sc.Name), coqList(sc.Options, vh.BytesTerm))
+	}
+	return fmt.Sprintf("(SObject %s %s)", vh.BytesTerm(sc.Name), fieldsCoq(sc.Fields))
 }
 
 type eKey struct {
@@ -112,10 +130,29 @@ func optBytes(s *string) string {
 	return "(Some " + vh.BytesTerm(*s) + ")"
 }
 
+// itemCoq is the ikind term of the item / value type of a container.
+func (u uField) itemCoq() string {
+	switch {
+	case u.Obj != "":
+		ctor := map[string]string{"": "IObject", "object": "IObject", "oneof": "IOneof", "enum": "IEnum"}[u.RefKind]
+		return fmt.Sprintf("(%s %s)", ctor, vh.BytesTerm(u.Obj))
+	case u.Ext != "":
+		return fmt.Sprintf("(IExt %s %s)", vh.BytesTerm(u.Ext), vh.BytesTerm(u.J5Kind))
+	}
+	return fmt.Sprintf("(IScalar %d %s)", u.PType, vh.BytesTerm(u.J5Kind))
+}
+
 func (u uField) coq() string {
 	kind := fmt.Sprintf("(KScalar %d %s)", u.PType, vh.BytesTerm(u.J5Kind))
-	if u.Obj != "" {
-		kind = fmt.Sprintf("(KObject %s)", vh.BytesTerm(u.Obj))
+	if u.Container == "array" {
+		kind = "(KArray " + u.itemCoq() + ")"
+	} else if u.Container == "map" {
+		kind = "(KMap " + u.itemCoq() + ")"
+	} else if u.Ext != "" {
+		kind = fmt.Sprintf("(KExt %s %s)", vh.BytesTerm(u.Ext), vh.BytesTerm(u.J5Kind))
+	} else if u.Obj != "" {
+		ctor := map[string]string{"": "KObject", "object": "KObject", "oneof": "KOneof", "enum": "KEnum"}[u.RefKind]
+		kind = fmt.Sprintf("(%s %s)", ctor, vh.BytesTerm(u.Obj))
 	} else if u.Key {
 		foreign := "None"
 		if u.Foreign != nil {
@@ -158,7 +195,7 @@ func (d *entityDecl) coq() string {
 		}),
 		coqList(d.Summaries, func(s eSummary) string { return fmt.Sprintf("(mkS %s %s)", vh.BytesTerm(s.Name), fieldsCoq(s.Fields)) }),
 		q,
-		coqList(d.Schemas, func(s eSchema) string { return fmt.Sprintf("(%s, %s)", vh.BytesTerm(s.Name), fieldsCoq(s.Fields)) }))
+		coqList(d.Schemas, eSchema.coq))
 }
 
 // ---- j5s text ----------------------------------------------------------------------
@@ -166,8 +203,16 @@ func (d *entityDecl) coq() string {
 var verbNames = map[int]string{1: "GET", 2: "POST", 3: "PUT", 4: "DELETE", 5: "PATCH"}
 
 func (u uField) j5sType() string {
+	if u.Container != "" {
+		item := u
+		item.Container = ""
+		return u.Container + ":" + item.j5sType()
+	}
 	if u.Obj != "" {
-		return "object:" + u.Obj
+		if u.RefKind == "" {
+			return "object:" + u.Obj
+		}
+		return u.RefKind + ":" + u.Obj
 	}
 	if !u.Key {
 		return u.J5Type
@@ -315,9 +360,22 @@ func (d *entityDecl) block() string {
 		sb.WriteString("\t}\n")
 	}
 	for _, sc := range d.Schemas {
-		sb.WriteString("\tobject " + sc.Name + " {\n")
-		for _, f := range sc.Fields {
-			printField(&sb, "\t\t", "field", f)
+		switch sc.Kind {
+		case 1:
+			sb.WriteString("\toneof " + sc.Name + " {\n")
+			for _, f := range sc.Fields {
+				printField(&sb, "\t\t", "option", f)
+			}
+		case 2:
+			sb.WriteString("\tenum " + sc.Name + " {\n")
+			for _, o := range sc.Options {
+				sb.WriteString("\t\toption " + o + "\n")
+			}
+		default:
+			sb.WriteString("\tobject " + sc.Name + " {\n")
+			for _, f := range sc.Fields {
+				printField(&sb, "\t\t", "field", f)
+			}
 		}
 		sb.WriteString("\t}\n")
 	}
